@@ -331,12 +331,30 @@ def r23_admission(ctx, sc: SimCtx):
             want = set()
             label = 'time = clock'
             rs = _raise_set(sc, dc.name, fn, own + callee, t, sc.clock_t, dom)
-        elif isinstance(t, ast.BinOp) and isinstance(t.op, ast.Add) and sc.clock_t in (sc.c(t.left, dc.name), sc.c(t.right, dc.name)):
+        elif isinstance(t, ast.BinOp) and isinstance(t.op, (ast.Add, ast.Sub)) and sc.clock_t in (sc.c(t.left, dc.name), sc.c(t.right, dc.name)) \
+                and not (isinstance(t.op, ast.Sub) and sc.c(t.right, dc.name) == sc.clock_t):
             dnode = t.right if sc.c(t.left, dc.name) == sc.clock_t else t.left
-            dom = ('lt', 'eq', 'gt', 'un')          # delay negative / zero / positive / NaN  <=> derived time lt/eq/gt/un
-            want = {'lt', 'un'}
+            # delay negative / zero / positive / NaN.  clock + delay: derived time lt/eq/gt/un; clock - delay: the mirror image
+            classes = ('neg', 'zero', 'pos', 'nan')
+            tmap = {'neg': 'lt', 'zero': 'eq', 'pos': 'gt', 'nan': 'un'} if isinstance(t.op, ast.Add) else {'neg': 'gt', 'zero': 'eq', 'pos': 'lt', 'nan': 'un'}
+            dmap = {'neg': 'lt', 'zero': 'eq', 'pos': 'gt', 'nan': 'un'}
             label = f'delay `{unparse(dnode)}` negative/zero/positive/NaN'
-            rs = _raise_set(sc, dc.name, fn, own + callee, t, sc.clock_t, dom, delay=dnode)
+            rs_classes = set()
+            for k in classes:
+                r1 = _raise_set(sc, dc.name, fn, own + callee, t, sc.clock_t, (tmap[k],), delay=None)
+                # guards on the delay itself
+                r2 = set()
+                dt = sc.c(dnode, dc.name)
+                env = {('ord', dt, '0'): dmap[k], ('ord', dt, '0.0'): dmap[k], ('nan', dt): k == 'nan',
+                       ('ord', sc.c(t, dc.name), sc.clock_t): tmap[k], ('nan', sc.c(t, dc.name)): k == 'nan'}
+                ge = GuardEval(sc.prog, dc.name, env, sc.enums)
+                hit = any((ge.ev(cd) is not None and ge.ev(cd) != br) for (cd, br) in own + callee)
+                if r1 or hit:
+                    rs_classes.add(k)
+            dom = ('lt', 'eq', 'gt', 'un')
+            back = {'neg': 'lt', 'zero': 'eq', 'pos': 'gt', 'nan': 'un'}
+            rs = {back[k] for k in rs_classes}
+            want = {'lt', 'un'}
         else:
             dom = ('lt', 'eq', 'gt', 'un')
             want = {'lt', 'un'}
@@ -350,6 +368,32 @@ def r23_admission(ctx, sc: SimCtx):
                         f'{m}: requests with {label} are refused for {[names[x] for x in sorted(rs)]} but must be refused exactly for '
                         f'{[names[x] for x in sorted(want)]}', where=f'{dc.name}.{m}')
     ctx.exhaustive['R2.3 orderings of (time ? clock) incl. unordered'] = True
+    # R2.7: the scheduling wrappers hand target / method / priority / kwargs to the event unchanged
+    ctx.rule('R2.7', 'schedule_event_now/_rel/_abs construct SimEvent(time, target, method, priority, **kwargs) from their own parameters')
+    for m in SCHED_METHODS:
+        if m == 'schedule_event':
+            continue
+        dc, fn = prog.resolve(SIM, m)
+        names = [a.arg for a in fn.args.args[1:]]
+        ctor = [c for c in walk_shallow(fn) if isinstance(c, ast.Call) and isinstance(c.func, ast.Name) and c.func.id == 'SimEvent']
+        ok = len(ctor) == 1
+        got = None
+        if ok:
+            c = ctor[0]
+            got = [unparse(a) for a in c.args[1:]] + [f'{k.arg}={unparse(k.value)}' if k.arg else f'**{unparse(k.value)}' for k in c.keywords]
+            want_args = [x for x in ('target', 'method', 'priority') if x in names]
+            pos = [unparse(a) for a in c.args[1:]]
+            kws = {k.arg: unparse(k.value) for k in c.keywords if k.arg}
+            star = [unparse(k.value) for k in c.keywords if k.arg is None]
+            vals = {}
+            for i, nm in enumerate(('target', 'method', 'priority')):
+                vals[nm] = pos[i] if i < len(pos) else kws.get(nm)
+            ok = all(vals.get(nm) == nm for nm in want_args) and (fn.args.kwarg is None or star == [fn.args.kwarg.arg])
+        ctx.ob('R2.7', f'{dc.name}.{m}', ok, sample=f'{dc.name}.{m}: SimEvent(<time>, {got})')
+        if not ok:
+            ctx.finding('R2.7', f'{dc.name}.{m}:forwarding', dc, ctor[0] if ctor else fn,
+                        f'{m} does not pass its own target / method / priority / **kwargs unchanged to SimEvent ({got}): the event runs another handler or with another tie-break priority',
+                        where=f'{dc.name}.{m}')
 
 
 def _node_containing(g, expr):
